@@ -377,6 +377,8 @@ static int modeReplay(const std::string &rowsPath, const std::string &tracePath,
                         if (rep == level[m] || (lv >= 1 && lv <= C + 1 && level[lv] == level[m]))
                             ++ties;
                     }
+                    long before = inner->calls;
+                    (void)before;
                     observe(b, w, ret, st, rep, false, 0, level[m], false, -1, json{{"row", ordRows}, {"m", m}});
                     (ret ? retTrue : retFalse)++;
                     obs.push_back(json{{"ret", ret}, {"c", lv}});
@@ -507,7 +509,7 @@ static int modeReplay(const std::string &rowsPath, const std::string &tracePath,
         double rep = ret ? lw.smp->heuristicSolnCost(st).value() : 0;
         SampleBatch &b = batches.get(kind, ov, phsBranch ? "script-bounds" : "script", degen, ov == "minmax");
         observe(b, lw.w, ret, st, rep, !lw.rejection, lw.minC, lw.maxC, ov == "minmax", forced,
-                json{{"row", loopRows}, {"tokens", sp.tokens}});
+                json{{"row", loopRows}, {"tokens", sp.tokens}}, std::max(attempts, 0L), (long)N);
         json obs{{"ret", ret}, {"idx", idx}, {"attempts", attempts}, {"tokens", sp.tokens}, {"unserved", sp.serve.size() + sp.boundsAns.size()},
                  {"extra", sp.drift}};
         if (ret != row["ret"].get<bool>() || (ret && idx != row["idx"].get<int>()) || attempts != row["draws"].get<long>() ||
@@ -517,7 +519,7 @@ static int modeReplay(const std::string &rowsPath, const std::string &tracePath,
         {
             std::string s = a;
             if (s == "HInf" || s == "UErase" || s == "UDegenerate" || s == "OMinBelow" || s == "WDrawIn" || s == "WDrawOut" ||
-                s == "PDrawKept" || s == "PDrawOutOfBounds" || s == "PDrawInNoPhs" || s == "RDrawAccept" || s == "RDrawReject")
+                s == "PDrawKept" || s == "PDrawOutOfBounds" || s == "PDrawKeptInNoPhs" || s == "RDrawAccept" || s == "RDrawReject")
                 exits[s]++;
         }
         sp.freeState(st);
@@ -605,7 +607,7 @@ static int modeReplay(const std::string &rowsPath, const std::string &tracePath,
                         double repc = ret ? lw.smp->heuristicSolnCost(st).value() : 0;
                         SampleBatch &b = cb.get("direct", ov, "recorded-calls", false, ov == "minmax");
                         observe(b, lw.w, ret, st, repc, true, lw.minC, lw.maxC, ov == "minmax", forced,
-                                json{{"K0", K0}, {"mask", mask}, {"N", N}, {"rep", rep}, {"tokens", tk}});
+                                json{{"K0", K0}, {"mask", mask}, {"N", N}, {"rep", rep}, {"tokens", tk}}, (long)at.size(), (long)N);
                         (ret ? callTrue : callFalse)++;
                         ++nCalls;
                         sp.freeState(st);
